@@ -163,8 +163,13 @@ def use_type(u):
     return "unsafe.Pointer" if u == "unsafe" else u + ".T"
 
 
-def use_expr(u):
-    return "unsafe.Sizeof(0)" if u == "unsafe" else u + ".X"
+# how a body refers to a package: plain qualified identifier, or ONLY as the root of a chained selector
+# (field of a package-level variable, nested field, method on a variable, field / method of a call result)
+USE_FORMS = ["X", "X", "X", "S.F", "S.In.F", "S.M()", "G().F", "G().M()", "G().In.F"]
+
+
+def use_expr(u, form="X"):
+    return "unsafe.Sizeof(0)" if u == "unsafe" else u + "." + form
 
 
 def pr_func(d):
@@ -182,7 +187,7 @@ def pr_func(d):
     if d["body"] is not None:
         s += " {\n\t_ = %s\n" % d["body"]
         for u in d["uses"]:
-            s += "\t_ = %s\n" % use_expr(u)
+            s += "\t_ = %s\n" % use_expr(u, d.get("_forms", {}).get(u, "X"))
         for u in d.get("_shadow", []):
             s += "\t{\n\t\tvar %s struct{ X int }\n\t\t_ = %s.X\n\t}\n" % (u, u)
         if d.get("_ref"):
@@ -476,6 +481,7 @@ class Gen:
         if body:
             d["body"] = str(m)
             d["uses"] = self.uses(avail, 0.4)
+            d["_forms"] = {u: self.r.choice(USE_FORMS) for u in d["uses"]}
             # a local variable named like an import, used through a selector: resolved identifier, NOT a use of the import
             d["_shadow"] = self.uses(avail, 0.12)
         return d
@@ -538,9 +544,9 @@ class Gen:
         cand = [a for a in avail if a != "unsafe"]
         c = r.random()
         if c < 0.25 and cand:
-            return dict(sel=r.choice(sorted(cand)), f=r.choice(["X", "V"]))
+            return dict(sel=r.choice(sorted(cand)), f=r.choice(["X", "V", "S.F", "S.In.F", "G().F"]))
         if c < 0.4 and cand:
-            return dict(call=r.choice(sorted(cand)), f="F1")
+            return dict(call=r.choice(sorted(cand)), f=r.choice(["F1", "F1", "S.M", "G().M"]))
         return dict(lit=str(self.mark()))
 
     def gen_decl(self, tok, specs, directive=None, force_paren=None):
